@@ -21,7 +21,7 @@ type applyCase struct {
 	RowNums  string        `json:"row_nums,omitempty"`
 }
 
-var c06VariantNames = append(append([]string{}, model.ShapeNames...), "aggregated", "selected", "copied")
+var c06VariantNames = append(append([]string{}, model.ShapeNames...), "aggregated", "selected", "copied", "zero-rows", "one-row", "one-row-of-a-sorted-frame")
 
 func c06Base() model.Frame {
 	N := model.Null()
@@ -64,6 +64,9 @@ func c06Variants() []c06Variant {
 		qframe.Aggregation{Fn: first, Column: "s"}))
 	add(q.Select("e", "s", "i", "f", "b"))
 	add(q.Copy("i2", "i").Copy("s", "s"))
+	add(model.Build(base.Rows(nil)))
+	add(model.Build(base.Rows([]int{1})))
+	add(q.Sort(qframe.Order{Column: "i"}).Slice(3, 4))
 	return c06vars
 }
 
@@ -395,7 +398,7 @@ func init() {
 		ID:    "C06",
 		Setup: func() { c06Variants() },
 		Level: "model_checking",
-		Rule: "case = (frame variant: 7 index shapes + result of Aggregate, Select, Copy; instruction list; optional FilteredApply clause). All instruction lists of length <= 2 over a ~150-instruction alphabet " +
+		Rule: "case = (frame variant: 7 index shapes + result of Aggregate, Select, Copy + zero-row, one-row and last-row-of-a-sorted-frame variants; instruction list; optional FilteredApply clause). All instruction lists of length <= 2 over a ~150-instruction alphabet " +
 			"(constants of every type incl. nil string, column copies, zero/one/two-argument functions of every supported signature per source type, built-ins, sources/destinations overlapping, later instructions reading earlier destinations), " +
 			"length 3 over a reduced alphabet (thorough), x 6 FilteredApply clauses, WithRowNums with 6 names. Non-trivial = the model accepts the program; distinct by (variant, program).",
 		Assumptions: []string{
